@@ -28,18 +28,19 @@ VARIABLES l,        \* next trace line
           memo,     \* (query, exact input bits) -> exact result bits first observed
           nexec,    \* execution counter (number of resets seen)
           worst,    \* reason code -> largest observed error / tolerance (calibration headroom, reported in the evidence)
+          sc,       \* scratch: everything computed for the current step, evaluated ONCE (see Step below)
           obs       \* object id -> last recorded observations (energy, energy gradient), for cross-object comparisons
-tvars == <<l, bad, stats, memo, nexec, obs, worst, objs>>
+tvars == <<l, bad, stats, memo, nexec, obs, worst, sc, objs>>
 KeepMemo == "VJ_KEEPMEMO" \in DOMAIN IOEnv /\ IOEnv.VJ_KEEPMEMO = "1"
-ObsPut(id, field, val) == obs' = [i \in DOMAIN obs \cup {id} |->
-                                   IF i = id THEN (IF id \in DOMAIN obs THEN [f \in DOMAIN obs[id] \ {field} |-> obs[id][f]] ELSE << >>) @@ (field :> val)
-                                   ELSE obs[i]]
+ObsWith(id, field, val) == [i \in DOMAIN obs \cup {id} |->
+                               IF i = id THEN (IF id \in DOMAIN obs THEN [f \in DOMAIN obs[id] \ {field} |-> obs[id][f]] ELSE << >>) @@ (field :> val)
+                               ELSE obs[i]]
 ObsHas(id, field) == id \in DOMAIN obs /\ field \in DOMAIN obs[id]
 
 Has(r, f) == f \in DOMAIN r
 H(x) == RFromHex(x)
-HV(v) == TLCEval([i \in 1..Len(v) |-> RFromHex(v[i])])
-HM(m) == TLCEval([i \in 1..Len(m) |-> HV(m[i])])
+HV(v) == Force([i \in 1..Len(v) |-> RFromHex(v[i])])
+HM(m) == Force([i \in 1..Len(m) |-> HV(m[i])])
 FinV(v) == \A i \in 1..Len(v) : RIsFiniteHex(v[i])
 FinM(m) == \A i \in 1..Len(m) : FinV(m[i])
 
@@ -93,7 +94,7 @@ CandM(prop, code, err, tol, info) == [prop |-> prop, code |-> code, ok |-> RLe(e
                                       m |-> IF tol = Zero THEN (IF err = Zero THEN Zero ELSE "1000000") ELSE RDiv(err, tol)]
 \* fold over the (already evaluated) candidates; every step is forced, or TLC's lazy evaluation makes the fold exponential
 UpdWorst(w0, cands0, start) ==
-    LET cs == TLCEval(cands0)
+    LET cs == Force(cands0)
         F[i \in 0..Len(cs)] ==
             IF i = 0 THEN w0
             ELSE LET c == cs[i]
@@ -107,13 +108,6 @@ Fails(cands) == SelectSeq(cands, LAMBDA c : ~c.ok)
 Mk(c, ev) == [prop |-> c.prop, code |-> c.code, info |-> c.info, line |-> l, exec |-> nexec,
               obj |-> IF Has(ev, "obj") THEN ev.obj ELSE 0]
 Devs(cands, ev) == LET f == Fails(cands) IN [i \in 1..Len(f) |-> Mk(f[i], ev)]
-\* evaluate the candidates ONCE (TLC re-evaluates a LET definition at every use inside an action), then record
-\* the failing ones, the headroom and the number of judgements made
-JudgeAll(cands, ev, st) ==
-    LET cs == TLCEval(cands)
-    IN /\ bad' = bad \o Devs(cs, ev)
-       /\ worst' = UpdWorst(worst, cs, 1)
-       /\ stats' = (IF "judgements" \in DOMAIN st THEN [st EXCEPT !["judgements"] = @ + Len(cs)] ELSE st @@ ("judgements" :> Len(cs)))
 Bump(st, key, n) == IF key \in DOMAIN st THEN [st EXCEPT ![key] = @ + n] ELSE st @@ (key :> n)
 
 \* flatten a sequence of sequences
@@ -148,9 +142,9 @@ BookCands(ev, pr) ==
          Cand("C01", "book.inputs", o.pts = ev.P /\ o.gdim = ev.dim, info)>>
 
 ResCands(ev, pr, C) ==
-    LET R == TLCEval(AllResiduals(pr, C))
-        w == TLCEval(InW(ev.order, pr.T))
-        a == TLCEval(InA(pr.T))
+    LET R == Force(AllResiduals(pr, C))
+        w == Force(InW(ev.order, pr.T))
+        a == Force(InA(pr.T))
         rat == IF AllPos(pr.T) THEN RShow(Ratio(pr.T)) ELSE "n/a"
         one(r) ==
             LET rw == ResVal(r.res, PhiW)  ra == ResVal(r.res, PhiA)
@@ -186,140 +180,138 @@ MemoCand(prop, code, key, val, info) ==
 MemoPut(mm, key, val) == IF key \in DOMAIN mm THEN mm ELSE mm @@ (key :> val)
 
 (* ------------------------------- actions ------------------------------ *)
+(***************************************************************************)
+(* TLC re-evaluates a LET definition at EVERY use when the LET occurs in   *)
+(* an action (its lazy values are not cached there, because they may       *)
+(* mention primed variables).  Every action below therefore computes all   *)
+(* it needs in one value-level operator (XxxStep, whose own LETs are       *)
+(* cached), stores the result in the scratch variable sc', and the other   *)
+(* conjuncts only read sc'.  A step record has: cands (judged candidates), *)
+(* st (counter names to bump), memo and obs (their new values), and        *)
+(* whatever the SplineObj action needs.                                    *)
+(***************************************************************************)
 IsEvent(k) == l <= Len(Tr) /\ Tr[l].e = k
 Ev == Tr[l]
 Advance == l' = l + 1
+RECURSIVE BumpAll(_, _)
+BumpAll(st, keys) == IF keys = <<>> THEN st ELSE BumpAll(Force(Bump(st, Head(keys), 1)), Tail(keys))
+\* bookkeeping common to all steps, reading only sc'
+Record ==
+    /\ bad' = bad \o Devs(sc'.cands, Ev)
+    /\ worst' = UpdWorst(worst, sc'.cands, 1)
+    /\ stats' = Bump(BumpAll(stats, sc'.st), "judgements", Len(sc'.cands))
+    /\ memo' = sc'.memo
+    /\ obs' = sc'.obs
+    /\ UNCHANGED nexec
+    /\ Advance
+StepRec(cands, st, mm, ob) == Force([cands |-> cands, st |-> st, memo |-> mm, obs |-> ob])
 
 TrReset ==
     /\ IsEvent("reset")
     /\ Reset
-    /\ memo' = (IF KeepMemo THEN memo ELSE << >>) /\ nexec' = nexec + 1 /\ obs' = << >>
+    /\ memo' = (IF KeepMemo THEN memo ELSE << >>) /\ nexec' = nexec + 1 /\ obs' = << >> /\ sc' = << >>
     /\ bad' = bad /\ stats' = Bump(stats, "executions", 1) /\ UNCHANGED worst
     /\ Advance
 
+BuildStep(ev) ==
+    LET ok == ~Has(ev, "exception") /\ FinV(ev.out.tsegs) /\ FinM(ev.out.coef) /\ FinV(ev.out.cum)
+              /\ Len(ev.out.tsegs) = Len(IF ByDurs(ev) THEN ev.T ELSE SubSeq(ev.tp, 2, Len(ev.tp)))
+    IN IF ~ok
+       THEN StepRec(<<Cand("C01", "build.failed", FALSE, [order |-> ev.order, dim |-> ev.dim])>>, <<"builds">>, memo, obs) @@ [ok |-> FALSE]
+       ELSE LET pr == Force(ProblemOf(ev))
+                C == Force(HM(ev.out.coef))
+                pre == Force(IF WantExact(ev, pr) /\ JGrad THEN AdjointPre(pr) ELSE <<>>)
+                Cx == Force(IF pre # <<>> THEN pre.C ELSE IF WantExact(ev, pr) THEN MinCoeffs(pr) ELSE <<>>)
+                key == Force(InKey(ev))
+                kc == <<"coef", key>>                 \* without the start time: C14 (shift) and C10
+                ks == <<"state", key, T0Of(ev)>>
+                vs == [cum |-> ev.out.cum, start |-> ev.out.start, end |-> ev.out.end, dur |-> ev.out.dur]
+                info == [order |-> ev.order, dim |-> ev.dim, N |-> NSeg(pr), how |-> ev.how]
+                cands == BuildCands(ev, pr, C, Cx)
+                         \o <<MemoCand("C10", "memo.coef", kc, ev.out.coef, info),
+                              MemoCand("C10", "memo.state", ks, vs, info)>>
+            IN StepRec(cands, <<"builds", IF Cx # <<>> THEN "exact_solves" ELSE "builds_without_exact">>,
+                       MemoPut(MemoPut(memo, kc, ev.out.coef), ks, vs), obs)
+               @@ [ok |-> TRUE, n |-> NSeg(pr),
+                   data |-> [order |-> ev.order, dim |-> ev.dim, key |-> key, t0 |-> T0Of(ev), pr |-> pr,
+                             C |-> C, Cx |-> Cx, pre |-> pre, coefbits |-> ev.out.coef, bp |-> HV(ev.out.cum)]]
 TrBuild ==
     /\ IsEvent("build")
-    /\ LET ev == Ev
-           ok == ~Has(ev, "exception") /\ FinV(ev.out.tsegs) /\ FinM(ev.out.coef) /\ FinV(ev.out.cum)
-                 /\ Len(ev.out.tsegs) = Len(IF ByDurs(ev) THEN ev.T ELSE SubSeq(ev.tp, 2, Len(ev.tp)))
-       IN IF ~ok
-          THEN /\ bad' = bad \o Devs(<<Cand("C01", "build.failed", FALSE, [order |-> ev.order, dim |-> ev.dim])>>, ev)
-               /\ UNCHANGED <<objs, memo, worst>> /\ stats' = Bump(stats, "builds", 1)
-          ELSE LET pr == TLCEval(ProblemOf(ev))
-                   C == TLCEval(HM(ev.out.coef))
-                   pre == IF WantExact(ev, pr) /\ JGrad THEN TLCEval(AdjointPre(pr)) ELSE <<>>
-                   Cx == TLCEval(IF pre # <<>> THEN pre.C ELSE IF WantExact(ev, pr) THEN MinCoeffs(pr) ELSE <<>>)
-                   key == TLCEval(InKey(ev))
-                   kc == <<"coef", key>>                 \* without the start time: C14 (shift) and C10
-                   ks == <<"state", key, T0Of(ev)>>
-                   vs == [cum |-> ev.out.cum, start |-> ev.out.start, end |-> ev.out.end, dur |-> ev.out.dur]
-                   info == [order |-> ev.order, dim |-> ev.dim, N |-> NSeg(pr), how |-> ev.how]
-                   cands == TLCEval(BuildCands(ev, pr, C, Cx))
-                            \o <<MemoCand("C10", "memo.coef", kc, ev.out.coef, info),
-                                 MemoCand("C10", "memo.state", ks, vs, info)>>
-               IN /\ Build(ev.obj, [order |-> ev.order, dim |-> ev.dim, key |-> key, t0 |-> T0Of(ev), pr |-> pr,
-                                     C |-> C, Cx |-> Cx, pre |-> pre, coefbits |-> ev.out.coef, bp |-> HV(ev.out.cum)],
-                           NSeg(pr), ev.how \in {"ctor_durs", "ctor_pts"})
-                  /\ JudgeAll(cands, ev, Bump(Bump(stats, "builds", 1), IF Cx # <<>> THEN "exact_solves" ELSE "builds_without_exact", 1))
-                  /\ memo' = MemoPut(MemoPut(memo, kc, ev.out.coef), ks, vs)
-    /\ UNCHANGED nexec
-    /\ UNCHANGED obs
-    /\ Advance
+    /\ sc' = BuildStep(Ev)
+    /\ IF sc'.ok THEN Build(Ev.obj, sc'.data, sc'.n, Ev.how \in {"ctor_durs", "ctor_pts"}) ELSE UNCHANGED objs
+    /\ Record
 
 \* re-reading the published state must give the bits of the build
-TrState ==
-    /\ IsEvent("state")
-    /\ LET ev == Ev
-           o == TLCEval(objs[ev.obj].data)
-           cands == <<Cand("C10", "state.coef", ev.out.coef = o.coefbits, [order |-> o.order, dim |-> o.dim])>>
-       IN /\ Query(ev.obj, "state")
-          /\ JudgeAll(cands, ev, stats)
-    /\ UNCHANGED <<memo, nexec>>
-    /\ UNCHANGED obs
-    /\ Advance
+StateStep(ev) ==
+    LET o == objs[ev.obj].data
+    IN StepRec(<<Cand("C10", "state.coef", ev.out.coef = o.coefbits, [order |-> o.order, dim |-> o.dim])>>, <<"state_queries">>, memo, obs)
+TrState == IsEvent("state") /\ sc' = StateStep(Ev) /\ Query(Ev.obj, "state") /\ Record
 
 \* value and derivatives at the knots (both sides)
-TrKnots ==
-    /\ IsEvent("knots")
-    /\ LET ev == Ev
-           o == TLCEval(objs[ev.obj].data)
-           pr == o.pr
-           s == pr.s  N == NSeg(pr)  D == Dim(pr)
-           w == InW(o.order, pr.T)
-           tolp(col) == RAdd(RMul(Tol6, PScale(pr, col)), Tiny)
-           told(col, d, Ti) == RAdd(RMul(Tol6, RDiv(PScale(pr, col), RPow(Ti, d))), Tiny)
-           close(x, y, t) == RLe(RAbs(RSub(x, y)), t)
-           info(code, i, d) == [order |-> o.order, dim |-> o.dim, N |-> N, i |-> i, d |-> d]
-           \* position at every knot from the right-continuous global route and from the left (segment route)
-           kpos == [i \in 1..(N + 1) |-> Cand("C01", "knot.pos",
-                       \A col \in 1..D : close(H(ev.out.kv[i][1][col]), pr.P[i][col], tolp(col)), info("kv", i - 1, 0))]
-           lpos == [i \in 1..N |-> Cand("C01", "knot.leftpos",
-                       \A col \in 1..D : close(H(ev.out.lv[i][1][col]), pr.P[i + 1][col], tolp(col)), info("lv", i, 0))]
-           rpos == [i \in 1..N |-> Cand("C01", "knot.rightpos",
-                       \A col \in 1..D : close(H(ev.out.rv[i][1][col]), pr.P[i][col], tolp(col)), info("rv", i - 1, 0))]
-           bstart == [d \in 1..(s - 1) |-> Cand("C01", "knot.bcstart",
-                       \A col \in 1..D : close(H(ev.out.kv[1][d + 1][col]), pr.BS[d][col], told(col, d, pr.T[1])), info("kv", 0, d))]
-           bend == [d \in 1..(s - 1) |-> Cand("C01", "knot.bcend",
-                       \A col \in 1..D : /\ close(H(ev.out.kv[N + 1][d + 1][col]), pr.BE[d][col], told(col, d, pr.T[N]))
-                                         /\ close(H(ev.out.lv[N][d + 1][col]), pr.BE[d][col], told(col, d, pr.T[N])),
-                       info("kv", N, d))]
-           \* derivatives 1..s-1 agree from both sides at interior knots (C02, the part visible through evaluate)
-           both == [q \in 1..((N - 1) * (s - 1)) |->
-                       LET i == ((q - 1) \div (s - 1)) + 1  d == q - (i - 1) * (s - 1)
-                       IN Cand("C02", "knot.bothsides",
-                              \A col \in 1..D : close(H(ev.out.lv[i][d + 1][col]), H(ev.out.rv[i + 1][d + 1][col]),
-                                                      told(col, d, RMin(pr.T[i], pr.T[i + 1]))), info("lr", i, d))]
-           sd == Cand("C01", "knot.segdur", Len(ev.out.segdur) = N /\ \A i \in 1..N : H(ev.out.segdur[i]) = RNearest(RSub(o.bp[i + 1], o.bp[i])), info("sd", 0, 0))
-           cands == <<sd>> \o (IF w THEN kpos \o lpos \o rpos \o bstart \o bend \o both ELSE <<>>)
-       IN /\ Query(ev.obj, "knots")
-          /\ JudgeAll(cands, ev, Bump(stats, "knot_queries", 1))
-    /\ UNCHANGED <<memo, nexec>>
-    /\ UNCHANGED obs
-    /\ Advance
+KnotsStep(ev) ==
+    LET o == objs[ev.obj].data
+        pr == o.pr
+        s == pr.s  N == NSeg(pr)  D == Dim(pr)
+        w == InW(o.order, pr.T)
+        ps == Force([col \in 1..D |-> PScale(pr, col)])
+        tolp(col) == RAdd(RMul(Tol6, ps[col]), Tiny)
+        told(col, d, Ti) == RAdd(RMul(Tol6, RDiv(ps[col], RPow(Ti, d))), Tiny)
+        close(x, y, t) == RLe(RAbs(RSub(x, y)), t)
+        info(code, i, d) == [order |-> o.order, dim |-> o.dim, N |-> N, i |-> i, d |-> d]
+        kpos == [i \in 1..(N + 1) |-> Cand("C01", "knot.pos",
+                    \A col \in 1..D : close(H(ev.out.kv[i][1][col]), pr.P[i][col], tolp(col)), info("kv", i - 1, 0))]
+        lpos == [i \in 1..N |-> Cand("C01", "knot.leftpos",
+                    \A col \in 1..D : close(H(ev.out.lv[i][1][col]), pr.P[i + 1][col], tolp(col)), info("lv", i, 0))]
+        rpos == [i \in 1..N |-> Cand("C01", "knot.rightpos",
+                    \A col \in 1..D : close(H(ev.out.rv[i][1][col]), pr.P[i][col], tolp(col)), info("rv", i - 1, 0))]
+        bstart == [d \in 1..(s - 1) |-> Cand("C01", "knot.bcstart",
+                    \A col \in 1..D : close(H(ev.out.kv[1][d + 1][col]), pr.BS[d][col], told(col, d, pr.T[1])), info("kv", 0, d))]
+        bend == [d \in 1..(s - 1) |-> Cand("C01", "knot.bcend",
+                    \A col \in 1..D : /\ close(H(ev.out.kv[N + 1][d + 1][col]), pr.BE[d][col], told(col, d, pr.T[N]))
+                                      /\ close(H(ev.out.lv[N][d + 1][col]), pr.BE[d][col], told(col, d, pr.T[N])),
+                    info("kv", N, d))]
+        \* derivatives 1..s-1 agree from both sides at interior knots (C02, the part visible through evaluate)
+        both == [q \in 1..((N - 1) * (s - 1)) |->
+                    LET i == ((q - 1) \div (s - 1)) + 1  d == q - (i - 1) * (s - 1)
+                    IN Cand("C02", "knot.bothsides",
+                           \A col \in 1..D : close(H(ev.out.lv[i][d + 1][col]), H(ev.out.rv[i + 1][d + 1][col]),
+                                                   told(col, d, RMin(pr.T[i], pr.T[i + 1]))), info("lr", i, d))]
+        sd == Cand("C01", "knot.segdur", Len(ev.out.segdur) = N /\ \A i \in 1..N : H(ev.out.segdur[i]) = RNearest(RSub(o.bp[i + 1], o.bp[i])), info("sd", 0, 0))
+        cands == <<sd>> \o (IF w THEN kpos \o lpos \o rpos \o bstart \o bend \o both ELSE <<>>)
+    IN StepRec(cands, <<"knot_queries">>, memo, obs)
+TrKnots == IsEvent("knots") /\ sc' = KnotsStep(Ev) /\ Query(Ev.obj, "knots") /\ Record
 
 \* energy = exact integral of the squared s-th derivative of the PUBLISHED polynomials (any positive durations)
-TrEnergy ==
-    /\ IsEvent("energy")
-    /\ LET ev == Ev
-           o == TLCEval(objs[ev.obj].data)
-           pr == o.pr
-           ex == Energy(o.C, pr.s, pr.T)
-           ab == EnergyAbs(o.C, pr.s, pr.T)
-           got == H(ev.out.val)
-           info == [order |-> o.order, dim |-> o.dim, N |-> NSeg(pr), got |-> RShow(got), want |-> RShow(ex)]
-           key == <<"energy", o.key>>
-           cands == IF RIsFiniteHex(ev.out.val) /\ AllPos(pr.T)
-                    THEN <<CandM("C04", "energy.value", RAbs(RSub(got, ex)), RAdd(RMul(Tol9, ab), Tiny), info),
-                           Cand("C04", "energy.nonneg", RLe(RNeg(RAdd(RMul(Tol9, ab), Tiny)), got), info),
-                           MemoCand("C10", "memo.energy", key, ev.out.val, info)>>
-                    ELSE <<Cand("C04", "energy.finite", ~AllPos(pr.T), info)>>
-       IN /\ QueryRecord(ev.obj, "energy", ev.out.val)
-          /\ JudgeAll(cands, ev, Bump(stats, "energy_queries", 1))
-          /\ memo' = MemoPut(memo, key, ev.out.val)
-          /\ ObsPut(ev.obj, "energy", ev.out.val)
-    /\ UNCHANGED nexec
-    /\ Advance
+EnergyStep(ev) ==
+    LET o == objs[ev.obj].data
+        pr == o.pr
+        ex == Force(Energy(o.C, pr.s, pr.T))
+        ab == Force(EnergyAbs(o.C, pr.s, pr.T))
+        got == H(ev.out.val)
+        info == [order |-> o.order, dim |-> o.dim, N |-> NSeg(pr), got |-> RShow(got), want |-> RShow(ex)]
+        key == <<"energy", o.key>>
+        cands == IF RIsFiniteHex(ev.out.val) /\ AllPos(pr.T)
+                 THEN <<CandM("C04", "energy.value", RAbs(RSub(got, ex)), RAdd(RMul(Tol9, ab), Tiny), info),
+                        Cand("C04", "energy.nonneg", RLe(RNeg(RAdd(RMul(Tol9, ab), Tiny)), got), info),
+                        MemoCand("C10", "memo.energy", key, ev.out.val, info)>>
+                 ELSE <<Cand("C04", "energy.finite", ~AllPos(pr.T), info)>>
+    IN StepRec(cands, <<"energy_queries">>, MemoPut(memo, key, ev.out.val), ObsWith(ev.obj, "energy", ev.out.val))
+TrEnergy == IsEvent("energy") /\ sc' = EnergyStep(Ev) /\ Query(Ev.obj, "energy") /\ Record
 
 \* evaluation through the trajectory: exact value of the piece of the LATEST published data (C11), memo (C10)
-TrEval ==
-    /\ IsEvent("eval")
-    /\ LET ev == Ev
-           o == TLCEval(objs[ev.obj].data)
-           nc == 2 * o.pr.s
-           t == H(ev.t)
-           want == EvalAt(o.bp, o.C, nc, t, ev.d)
-           mag == EvalAbsAt(o.bp, o.C, nc, t, ev.d)
-           key == <<"eval", o.key, o.t0, ev.t, ev.d>>
-           info == [order |-> o.order, dim |-> o.dim, t |-> ev.t, d |-> ev.d]
-           cands == <<Cand("C11", "eval.latest",
-                           \A col \in 1..o.dim : WithinUlps(H(ev.out.val[col]), want[col], RAdd(mag[col], Tiny), 64), info),
-                      MemoCand("C10", "memo.eval", key, ev.out.val, info)>>
-       IN /\ Query(ev.obj, "eval")
-          /\ JudgeAll(cands, ev, Bump(stats, "evals", 1))
-          /\ memo' = MemoPut(memo, key, ev.out.val)
-    /\ UNCHANGED nexec
-    /\ UNCHANGED obs
-    /\ Advance
+EvalStep(ev) ==
+    LET o == objs[ev.obj].data
+        nc == 2 * o.pr.s
+        t == H(ev.t)
+        want == Force(EvalAt(o.bp, o.C, nc, t, ev.d))
+        mag == Force(EvalAbsAt(o.bp, o.C, nc, t, ev.d))
+        key == <<"eval", o.key, o.t0, ev.t, ev.d>>
+        info == [order |-> o.order, dim |-> o.dim, t |-> ev.t, d |-> ev.d]
+        cands == <<Cand("C11", "eval.latest",
+                        \A col \in 1..o.dim : WithinUlps(H(ev.out.val[col]), want[col], RAdd(mag[col], Tiny), 64), info),
+                   MemoCand("C10", "memo.eval", key, ev.out.val, info)>>
+    IN StepRec(cands, <<"evals">>, MemoPut(memo, key, ev.out.val), obs)
+TrEval == IsEvent("eval") /\ sc' = EvalStep(Ev) /\ Query(Ev.obj, "eval") /\ Record
 
 (* ------------------------------ gradients ---------------------------- *)
 \* |got - want| <= 1e-6 * S + tiny, entry-wise
@@ -329,8 +321,9 @@ GClose(got, want, S) == RLe(RAbs(RSub(got, want)), RAdd(RMul(Tol6, S), Tiny))
 VecCandM(prop, code, got, want, S, info) ==
     LET fr == [c \in 1..Len(want) |-> RDiv(RAbs(RSub(H(got[c]), want[c])), RAdd(RMul(Tol6, S[c]), Tiny))]
     IN CandM(prop, code, RMaxSeq(fr), One, info)
-GradCands(prop, code, o, out, g) ==
-    LET pr == o.pr  s == pr.s  N == NSeg(pr)  D == Dim(pr)
+GradCands(prop, code, o, out, g0) ==
+    LET g == Force(g0)
+        pr == o.pr  s == pr.s  N == NSeg(pr)  D == Dim(pr)
         info(part, i) == [order |-> o.order, dim |-> o.dim, N |-> N, part |-> part, i |-> i]
         names == <<"v", "a", "j">>
         shape == Len(out.times) = N /\ Len(out.inner) = N - 1 /\ FinV(out.times) /\ FinM(out.inner)
@@ -346,85 +339,57 @@ GradCands(prop, code, o, out, g) ==
 GradJudged(o) == JGrad /\ o.pre # <<>>
 
 \* propagateGrad(gdC, gdT): exact transpose-Jacobian product (C05); independent of earlier calls (memo, C05/C10)
-TrProp ==
-    /\ IsEvent("prop")
-    /\ LET ev == Ev
-           o == TLCEval(objs[ev.obj].data)
-           key == <<"prop", o.key, ev.gdC, ev.gdT>>
-           info == [order |-> o.order, dim |-> o.dim, N |-> NSeg(o.pr)]
-           okin == Len(ev.gdC) = NUnk(o.pr) /\ Len(ev.gdT) = NSeg(o.pr)
-           cands == (IF GradJudged(o) /\ okin /\ ~Has(ev, "exception")
-                     THEN GradCands("C05", "prop", o, ev.out, TLCEval(AdjointWith(o.pr, o.pre, TLCEval(HM(ev.gdC)), TLCEval(HV(ev.gdT))))) ELSE <<>>)
-                    \o <<MemoCand("C05", "memo.prop", key, ev.out, info)>>
-       IN /\ Query(ev.obj, "prop")
-          /\ JudgeAll(cands, ev, Bump(Bump(stats, "props", 1), IF GradJudged(o) THEN "props_exact" ELSE "props_memo_only", 1))
-          /\ memo' = MemoPut(memo, key, ev.out)
-          /\ ObsPut(ev.obj, "prop", ev.out)
-    /\ UNCHANGED nexec
-    /\ Advance
+PropStep(ev) ==
+    LET o == objs[ev.obj].data
+        key == <<"prop", o.key, ev.gdC, ev.gdT>>
+        info == [order |-> o.order, dim |-> o.dim, N |-> NSeg(o.pr)]
+        okin == Len(ev.gdC) = NUnk(o.pr) /\ Len(ev.gdT) = NSeg(o.pr)
+        cands == (IF GradJudged(o) /\ okin /\ ~Has(ev, "exception")
+                  THEN GradCands("C05", "prop", o, ev.out, Force(AdjointWith(o.pr, o.pre, Force(HM(ev.gdC)), Force(HV(ev.gdT))))) ELSE <<>>)
+                 \o <<MemoCand("C05", "memo.prop", key, ev.out, info)>>
+    IN StepRec(cands, <<"props", IF GradJudged(o) THEN "props_exact" ELSE "props_memo_only">>, MemoPut(memo, key, ev.out), ObsWith(ev.obj, "prop", ev.out))
+TrProp == IsEvent("prop") /\ sc' = PropStep(Ev) /\ Query(Ev.obj, "prop") /\ Record
 
 \* partial gradients of the energy: closed forms of the published coefficients (C06)
-TrEPartial ==
-    /\ IsEvent("epartial")
-    /\ LET ev == Ev
-           o == TLCEval(objs[ev.obj].data)
-           pr == o.pr  s == pr.s  N == NSeg(pr)  D == Dim(pr)
-           wc == TLCEval(EnergyPartialC(o.C, s, pr.T))
-           wcA == TLCEval(EnergyPartialCAbs(o.C, s, pr.T))
-           wt == TLCEval(EnergyPartialT(o.C, s, pr.T))
-           wtA == TLCEval(EnergyPartialTAbs(o.C, s, pr.T))
-           info(part, i) == [order |-> o.order, dim |-> o.dim, N |-> N, part |-> part, i |-> i]
-           key == <<"epartial", o.key>>
-           shape == Len(ev.out.gdC) = 2 * s * N /\ Len(ev.out.gdT) = N /\ FinM(ev.out.gdC) /\ FinV(ev.out.gdT)
-           cands == (IF ~shape THEN <<Cand("C06", "epartial.shape", FALSE, info("shape", 0))>>
-                     ELSE IF ~AllPos(pr.T) THEN <<>>
-                     ELSE [r \in 1..(2 * s * N) |-> Cand("C06", "epartial.coeffs",
-                              \A col \in 1..D : RLe(RAbs(RSub(H(ev.out.gdC[r][col]), wc[r][col])), RAdd(RMul(Tol9, wcA[r][col]), Tiny)), info("gdC", r))]
-                          \o [i \in 1..N |-> Cand("C06", "epartial.times",
-                              RLe(RAbs(RSub(H(ev.out.gdT[i]), wt[i])), RAdd(RMul(Tol9, wtA[i]), Tiny)), info("gdT", i))])
-                    \o <<MemoCand("C10", "memo.epartial", key, ev.out, info("memo", 0))>>
-       IN /\ Query(ev.obj, "epartial")
-          /\ JudgeAll(cands, ev, Bump(stats, "epartials", 1))
-          /\ memo' = MemoPut(memo, key, ev.out)
-    /\ UNCHANGED nexec
-    /\ UNCHANGED obs
-    /\ Advance
+EPartialStep(ev) ==
+    LET o == objs[ev.obj].data
+        pr == o.pr  s == pr.s  N == NSeg(pr)  D == Dim(pr)
+        wc == Force(EnergyPartialC(o.C, s, pr.T))
+        wcA == Force(EnergyPartialCAbs(o.C, s, pr.T))
+        wt == Force(EnergyPartialT(o.C, s, pr.T))
+        wtA == Force(EnergyPartialTAbs(o.C, s, pr.T))
+        info(part, i) == [order |-> o.order, dim |-> o.dim, N |-> N, part |-> part, i |-> i]
+        key == <<"epartial", o.key>>
+        shape == Len(ev.out.gdC) = 2 * s * N /\ Len(ev.out.gdT) = N /\ FinM(ev.out.gdC) /\ FinV(ev.out.gdT)
+        cands == (IF ~shape THEN <<Cand("C06", "epartial.shape", FALSE, info("shape", 0))>>
+                  ELSE IF ~AllPos(pr.T) THEN <<>>
+                  ELSE [r \in 1..(2 * s * N) |-> Cand("C06", "epartial.coeffs",
+                           \A col \in 1..D : RLe(RAbs(RSub(H(ev.out.gdC[r][col]), wc[r][col])), RAdd(RMul(Tol9, wcA[r][col]), Tiny)), info("gdC", r))]
+                       \o [i \in 1..N |-> Cand("C06", "epartial.times",
+                           RLe(RAbs(RSub(H(ev.out.gdT[i]), wt[i])), RAdd(RMul(Tol9, wtA[i]), Tiny)), info("gdT", i))])
+                 \o <<MemoCand("C10", "memo.epartial", key, ev.out, info("memo", 0))>>
+    IN StepRec(cands, <<"epartials">>, MemoPut(memo, key, ev.out), obs)
+TrEPartial == IsEvent("epartial") /\ sc' = EPartialStep(Ev) /\ Query(Ev.obj, "epartial") /\ Record
 
 \* analytic total energy gradients (C06); prop_epartial: propagating the object's own partials reproduces them
-TrEGrad ==
-    /\ (IsEvent("egrad") \/ IsEvent("prop_epartial"))
-    /\ LET ev == Ev
-           o == TLCEval(objs[ev.obj].data)
-           pr == o.pr
-           code == IF ev.e = "egrad" THEN "egrad" ELSE "propepartial"
-           key == <<code, o.key>>     \* every access route (struct / reference / parts) must return the same bits
-           info == [order |-> o.order, dim |-> o.dim, N |-> NSeg(pr)]
-           cands == (IF GradJudged(o) /\ ~Has(ev, "exception")
-                     THEN GradCands("C06", code, o, ev.out,
-                                    TLCEval(AdjointWith(pr, o.pre, TLCEval(EnergyPartialC(o.Cx, pr.s, pr.T)), TLCEval(EnergyPartialT(o.Cx, pr.s, pr.T))))) ELSE <<>>)
-                    \o <<MemoCand("C10", "memo." \o code, key, ev.out, info)>>
-       IN /\ Query(ev.obj, IF ev.e = "egrad" THEN "egrad" ELSE "prop")
-          /\ JudgeAll(cands, ev, Bump(Bump(stats, "egrads", 1), IF GradJudged(o) THEN "egrads_exact" ELSE "egrads_memo_only", 1))
-          /\ memo' = MemoPut(memo, key, ev.out)
-          /\ ObsPut(ev.obj, code, ev.out)
-    /\ UNCHANGED nexec
-    /\ Advance
+EGradStep(ev) ==
+    LET o == objs[ev.obj].data
+        pr == o.pr
+        code == IF ev.e = "egrad" THEN "egrad" ELSE "propepartial"
+        key == <<code, o.key>>     \* every access route (struct / reference / parts) must return the same bits
+        info == [order |-> o.order, dim |-> o.dim, N |-> NSeg(pr)]
+        cands == (IF GradJudged(o) /\ ~Has(ev, "exception")
+                  THEN GradCands("C06", code, o, ev.out,
+                                 Force(AdjointWith(pr, o.pre, Force(EnergyPartialC(o.Cx, pr.s, pr.T)), Force(EnergyPartialT(o.Cx, pr.s, pr.T))))) ELSE <<>>)
+                 \o <<MemoCand("C10", "memo." \o code, key, ev.out, info)>>
+    IN StepRec(cands, <<"egrads", IF GradJudged(o) THEN "egrads_exact" ELSE "egrads_memo_only">>, MemoPut(memo, key, ev.out), ObsWith(ev.obj, code, ev.out))
+TrEGrad == (IsEvent("egrad") \/ IsEvent("prop_epartial")) /\ sc' = EGradStep(Ev)
+           /\ Query(Ev.obj, IF Ev.e = "egrad" THEN "egrad" ELSE "prop") /\ Record
 
-TrCopy ==
-    /\ IsEvent("copy")
-    /\ Copy(Ev.dst, Ev.src)
-    /\ UNCHANGED <<bad, memo, nexec, obs, worst>> /\ stats' = Bump(stats, "copies", 1)
-    /\ Advance
-TrAssign ==
-    /\ IsEvent("assign")
-    /\ Assign(Ev.dst, Ev.src)
-    /\ UNCHANGED <<bad, memo, nexec, obs, worst>> /\ stats' = Bump(stats, "assigns", 1)
-    /\ Advance
-TrDestroy ==
-    /\ IsEvent("destroy")
-    /\ Destroy(Ev.obj)
-    /\ UNCHANGED <<bad, memo, nexec, obs, worst>> /\ stats' = Bump(stats, "destroys", 1)
-    /\ Advance
+Plain(st) == StepRec(<<>>, st, memo, obs)
+TrCopy == IsEvent("copy") /\ sc' = Plain(<<"copies">>) /\ Copy(Ev.dst, Ev.src) /\ Record
+TrAssign == IsEvent("assign") /\ sc' = Plain(<<"assigns">>) /\ Assign(Ev.dst, Ev.src) /\ Record
+TrDestroy == IsEvent("destroy") /\ sc' = Plain(<<"destroys">>) /\ Destroy(Ev.obj) /\ Record
 
 \* harness directives (no library call): comparisons between objects of one execution, judged here
 SameCands(ev) ==
@@ -453,13 +418,13 @@ CoefClose(prop, code, pr, X, Y, tol, info) ==
                 err == RMaxSeq([k \in 1..(2 * s) |-> RAbs(RMul(RSub(x[k], y[k]), RPow(pr.T[i], k - 1)))])
             IN Cand(prop, code, RLe(err, RAdd(RMul(tol, mag), Tiny)), info @@ [i |-> i, col |-> col, err |-> RShow(err), mag |-> RShow(mag)])
     IN [q \in 1..(N * D) |-> LET i == ((q - 1) \div D) + 1 IN seg(i, q - (i - 1) * D)]
-ColOf(M, j) == TLCEval([r \in 1..Len(M) |-> <<M[r][j]>>])
+ColOf(M, j) == Force([r \in 1..Len(M) |-> <<M[r][j]>>])
 Tol12 == RPow("10", -12)
 RelClose(x, y, tol) == RLe(RAbs(RSub(x, y)), RAdd(RMul(tol, RMax(RAbs(x), RAbs(y))), Tiny))
 
 \* C13: column j of the D-dimensional object a is the 1-D object b
 CoordCands(ev) ==
-    LET a == TLCEval(objs[ev.a].data)  b == TLCEval(objs[ev.b].data)
+    LET a == Force(objs[ev.a].data)  b == Force(objs[ev.b].data)
         info == [order |-> a.order, dim |-> a.dim, N |-> NSeg(a.pr), coord |-> ev.j]
     IN IF b.dim # 1 \/ NSeg(b.pr) # NSeg(a.pr) \/ a.order # b.order THEN <<Cand("C13", "coord.shape", FALSE, info)>>
        ELSE CoefClose("C13", "coord.coef", a.pr, ColOf(a.C, ev.j), b.C, Tol6, info)
@@ -474,7 +439,7 @@ CoordCands(ev) ==
                 ELSE <<>>)
 \* C13: energy and duration gradients of a are the sums over the 1-D parts
 SumCands(ev) ==
-    LET a == TLCEval(objs[ev.a].data)
+    LET a == Force(objs[ev.a].data)
         info == [order |-> a.order, dim |-> a.dim, N |-> NSeg(a.pr)]
         parts == ev.parts
         en == IF ObsHas(ev.a, "energy") /\ \A q \in 1..Len(parts) : ObsHas(parts[q], "energy")
@@ -493,16 +458,16 @@ SumCands(ev) ==
     IN en \o tg("egrad", "sum.egrad.times") \o tg("prop", "sum.prop.times")
 \* C13: b was built from the inputs of a with coordinates permuted: b[:, j] = a[:, perm[j]]
 PermCands(ev) ==
-    LET a == TLCEval(objs[ev.a].data)  b == TLCEval(objs[ev.b].data)
+    LET a == Force(objs[ev.a].data)  b == Force(objs[ev.b].data)
         info == [order |-> a.order, dim |-> a.dim, N |-> NSeg(a.pr)]
         pm == ev.perm
-        Ap == TLCEval([r \in 1..Len(a.C) |-> [j \in 1..a.dim |-> a.C[r][pm[j]]]])
+        Ap == Force([r \in 1..Len(a.C) |-> [j \in 1..a.dim |-> a.C[r][pm[j]]]])
     IN CoefClose("C13", "perm.coef", a.pr, Ap, b.C, Tol12, info)
        \o (IF ObsHas(ev.a, "energy") /\ ObsHas(ev.b, "energy")
            THEN <<Cand("C13", "perm.energy", RelClose(H(obs[ev.a].energy), H(obs[ev.b].energy), Tol12), info)>> ELSE <<>>)
 \* C14: b was built from a transformed problem
 XformCands(ev) ==
-    LET a == TLCEval(objs[ev.a].data)  b == TLCEval(objs[ev.b].data)
+    LET a == Force(objs[ev.a].data)  b == Force(objs[ev.b].data)
         pr == a.pr  s == pr.s  N == NSeg(pr)  D == Dim(pr)
         info == [order |-> a.order, dim |-> a.dim, N |-> N, kind |-> ev.kind]
         kOf(r) == (r - 1) - ((r - 1) \div (2 * s)) * 2 * s
@@ -518,38 +483,35 @@ XformCands(ev) ==
               \o (IF ObsHas(ev.a, "egrad") /\ ObsHas(ev.b, "egrad") THEN <<Cand("C14", "shift.egradbits", obs[ev.a].egrad = obs[ev.b].egrad, info)>> ELSE <<>>)
          [] ev.kind = "translate" ->
               CoefClose("C14", "xform.coef.translate", pr,
-                        TLCEval([r \in 1..Len(a.C) |-> IF kOf(r) = 0 THEN VAdd(a.C[r], HV(ev.v)) ELSE a.C[r]]), b.C, Tol6, info) \o en(One)
+                        Force([r \in 1..Len(a.C) |-> IF kOf(r) = 0 THEN VAdd(a.C[r], HV(ev.v)) ELSE a.C[r]]), b.C, Tol6, info) \o en(One)
          [] ev.kind = "scale" ->
-              CoefClose("C14", "xform.coef.scale", pr, TLCEval([r \in 1..Len(a.C) |-> VScale(H(ev.f), a.C[r])]), b.C, Tol6, info) \o en(RSq(H(ev.f)))
+              CoefClose("C14", "xform.coef.scale", pr, Force([r \in 1..Len(a.C) |-> VScale(H(ev.f), a.C[r])]), b.C, Tol6, info) \o en(RSq(H(ev.f)))
          [] ev.kind = "tscale" ->
-              CoefClose("C14", "xform.coef.tscale", b.pr, TLCEval([r \in 1..Len(a.C) |-> VScale(RPow(H(ev.f), -kOf(r)), a.C[r])]), b.C, Tol6, info)
+              CoefClose("C14", "xform.coef.tscale", b.pr, Force([r \in 1..Len(a.C) |-> VScale(RPow(H(ev.f), -kOf(r)), a.C[r])]), b.C, Tol6, info)
               \o en(RPow(H(ev.f), -(2 * s - 1)))
          [] ev.kind = "reverse" ->
               CoefClose("C14", "xform.coef.reverse", b.pr, ReverseCoeffs(a.C, s, pr.T), b.C, Tol6, info) \o en(One)
          [] OTHER -> <<Cand("INFRA", "xform.unknown", FALSE, info)>>
 
-TrNote ==
-    /\ IsEvent("note")
-    /\ LET ev == Ev
-           cands == IF ~Has(ev, "what") THEN <<>>
-                    ELSE CASE ev.what = "same" -> SameCands(ev)
-                           [] ev.what = "coord" -> CoordCands(ev)
-                           [] ev.what = "sum" -> SumCands(ev)
-                           [] ev.what = "perm" -> PermCands(ev)
-                           [] ev.what = "xform" -> XformCands(ev)
-                           [] OTHER -> <<>>
-       IN JudgeAll(cands, ev, Bump(stats, "notes", 1))
-    /\ UNCHANGED <<objs, memo, nexec, obs>>
-    /\ Advance
+NoteStep(ev) ==
+    LET cands == IF ~Has(ev, "what") THEN <<>>
+                 ELSE CASE ev.what = "same" -> SameCands(ev)
+                        [] ev.what = "coord" -> CoordCands(ev)
+                        [] ev.what = "sum" -> SumCands(ev)
+                        [] ev.what = "perm" -> PermCands(ev)
+                        [] ev.what = "xform" -> XformCands(ev)
+                        [] OTHER -> <<>>
+    IN StepRec(cands, <<"notes">>, memo, obs)
+TrNote == IsEvent("note") /\ sc' = NoteStep(Ev) /\ UNCHANGED objs /\ Record
 
 Known == {"prop", "epartial", "egrad", "prop_epartial", "note", "reset", "build", "state", "knots", "energy", "eval", "copy", "assign", "destroy"}
 TrUnknown ==
     /\ l <= Len(Tr) /\ Tr[l].e \notin Known
     /\ bad' = bad \o <<[prop |-> "INFRA", code |-> "unknown.event", info |-> [e |-> Tr[l].e], line |-> l, exec |-> nexec, obj |-> 0]>>
-    /\ UNCHANGED <<objs, memo, nexec, stats, obs, worst>>
+    /\ UNCHANGED <<objs, memo, nexec, stats, obs, worst, sc>>
     /\ Advance
 
-TraceInit == /\ worst = << >> /\ obs = << >> /\ l = 1 /\ bad = <<>> /\ stats = [lines |-> Len(Tr)] /\ memo = << >> /\ nexec = 0 /\ ObjInit
+TraceInit == /\ sc = << >> /\ worst = << >> /\ obs = << >> /\ l = 1 /\ bad = <<>> /\ stats = [lines |-> Len(Tr)] /\ memo = << >> /\ nexec = 0 /\ ObjInit
 TraceNext == TrProp \/ TrEPartial \/ TrEGrad \/ TrNote \/ TrReset \/ TrBuild \/ TrState \/ TrKnots \/ TrEnergy \/ TrEval \/ TrCopy \/ TrAssign \/ TrDestroy \/ TrUnknown
 TraceSpec == TraceInit /\ [][TraceNext]_tvars
 
